@@ -55,13 +55,20 @@ func execOne(p *tmplx.Prepared, v interface{}, c bool) tmplx.Result {
 	return p.Exec(&d)
 }
 
+// execOne2 additionally fixes the second condition.
+func execOne2(p *tmplx.Prepared, v interface{}, c, c2 bool) tmplx.Result {
+	d := tmplx.Data{P0: v, C: c, C2: c2}
+	return p.Exec(&d)
+}
+
 // classifyCell runs the probes on program text (slot instantiated as {{$.P0}}).
-func classifyCell(text string, c bool) cellObs {
+func classifyCell(text string, c bool, c2 ...bool) cellObs {
+	c2v := len(c2) > 0 && c2[0]
 	p, pr := tmplx.Prepare(text)
 	if p == nil {
 		return cellObs{Class: "reject", Kind: pr.Kind, Err: fmt.Sprint(pr.Err)}
 	}
-	r0 := execOne(p, cellProbe, c)
+	r0 := execOne2(p, cellProbe, c, c2v)
 	switch r0.Kind {
 	case tmplx.Rejected, tmplx.RejectedEnd, tmplx.OtherError, tmplx.Panicked:
 		return cellObs{Class: "reject", Kind: r0.Kind, Err: fmt.Sprint(r0.Err)}
@@ -70,14 +77,14 @@ func classifyCell(text string, c bool) cellObs {
 	hostile := "javascript:alert(1)"
 	if r0.Kind == tmplx.OK {
 		// plain strings accepted: which flavour?
-		rh := execOne(p, hostile, c)
-		rm := execOne(p, "<b>\"'&", c)
+		rh := execOne2(p, hostile, c, c2v)
+		rm := execOne2(p, "<b>\"'&", c, c2v)
 		switch {
 		case rh.Kind == tmplx.OK && strings.Contains(rh.Out, "about:invalid"):
 			obs.Class = "URL"
 			// which typed values pass a javascript: URL through?
 			for _, t := range safeTypes {
-				rt := execOne(p, t.mk(hostile), c)
+				rt := execOne2(p, t.mk(hostile), c, c2v)
 				if rt.Kind == tmplx.OK && strings.Contains(rt.Out, "javascript:") {
 					obs.Typed = append(obs.Typed, t.name)
 				}
@@ -86,18 +93,18 @@ func classifyCell(text string, c bool) cellObs {
 				obs.Class = "TRURLOrURL"
 			}
 			// srcset flavour: a second candidate is vetted separately
-			rs := execOne(p, "/a 1x, javascript:x 2x, /b", c)
+			rs := execOne2(p, "/a 1x, javascript:x 2x, /b", c, c2v)
 			if rs.Kind == tmplx.OK && strings.Contains(rs.Out, "/b") && !strings.Contains(rs.Out, "javascript") {
 				obs.Class = "URLSet"
 			}
 		case rm.Kind == tmplx.OK:
 			obs.Class = "Escaped"
-			rt := execOne(p, safeTypes[0].mk("<b>"+cellProbe+"</b>"), c)
+			rt := execOne2(p, safeTypes[0].mk("<b>"+cellProbe+"</b>"), c, c2v)
 			if rt.Kind == tmplx.OK && strings.Contains(rt.Out, "<b>"+cellProbe+"</b>") {
 				obs.Class = "HTML"
 			}
 			for _, t := range safeTypes[1:] {
-				rt := execOne(p, t.mk("<i>"+cellProbe), c)
+				rt := execOne2(p, t.mk("<i>"+cellProbe), c, c2v)
 				if rt.Kind == tmplx.OK && strings.Contains(rt.Out, "<i>"+cellProbe) {
 					obs.Typed = append(obs.Typed, t.name) // unexpected raw pass-through
 				}
@@ -109,7 +116,7 @@ func classifyCell(text string, c bool) cellObs {
 	}
 	// plain benign string refused at run time: typed-only or enum
 	for _, w := range enumWords {
-		if rw := execOne(p, w, c); rw.Kind == tmplx.OK {
+		if rw := execOne2(p, w, c, c2v); rw.Kind == tmplx.OK {
 			obs.Words = append(obs.Words, w)
 		}
 	}
@@ -123,7 +130,7 @@ func classifyCell(text string, c bool) cellObs {
 		case "TrustedResourceURL", "URL":
 			v = "/zt"
 		}
-		if rt := execOne(p, t.mk(v), c); rt.Kind == tmplx.OK {
+		if rt := execOne2(p, t.mk(v), c, c2v); rt.Kind == tmplx.OK {
 			obs.Typed = append(obs.Typed, t.name)
 		}
 	}
